@@ -46,7 +46,7 @@ ASSUMPTIONS = [
     'The node assigns real ids (>= 1000) on alloc, as a real node does; interpreter-local placeholder ids are mapped by position.',
     'Independent key hashing covers the key types generated here (int, string, bytes, pair int string, pair int int int string), using the legacy (nested-pair) packing for combs, as the protocol does for big_map keys.',
 ]
-EXPECTED_PROBES = ['long_lived_session_reused', 'session_switched_network', 'parameter_big_map_session', 'empty_list_value_on_chain_read', 'sibling_key_types_same_text', 'read_chain_only_key', 'update_chain_only_key', 'remove_chain_only_key', 'reinsert_after_remove', 'read_after_local_remove_of_chain_key',
+EXPECTED_PROBES = ['static_run_code_transaction', 'long_lived_session_reused', 'session_switched_network', 'parameter_big_map_session', 'empty_list_value_on_chain_read', 'sibling_key_types_same_text', 'read_chain_only_key', 'update_chain_only_key', 'remove_chain_only_key', 'reinsert_after_remove', 'read_after_local_remove_of_chain_key',
                    'commit_with_removals', 'abandoned_session', 'failed_cell_midway', 'transient_on_read', 'second_txn_reads_first_txn_writes', 'dup_divergent']
 
 URI = 'http://node0.sim:8732'
@@ -241,7 +241,11 @@ def gen(seed, tier):
         src = rng.choice(['chain', 'chain', 'chain', 'literal', 'empty', 'prev', 'param'])
         if src == 'literal' and ktype == 'address_mix':
             src = 'empty'
+        static = src != 'param' and rng.random() < 0.2
         st = {'op': 'begin', 'src': src, 'bm': rng.choice(['1000', '1000', '1001'])}
+        if static:
+            # the whole transaction is one contract executed through Interpreter.run_code (the non-REPL entry point)
+            st['static'] = rng.choice(['readable', 'optimized', 'legacy_optimized'])
         if src == 'literal':
             lit = {}
             for ki in sorted(rng.sample(range(len(keys)), rng.randint(0, len(keys)))):
@@ -468,6 +472,7 @@ def execute(scn, want_log=False):
                 K = KTYPE_M[ktype]
                 H = HS[ktype]
                 sess['ktype'] = ktype
+                pairs = []
                 if src in ('chain', 'prev', 'param'):
                     bm = int(st['bm']) if src != 'prev' else last_committed[0]
                     sess['base_id'] = bm
@@ -483,6 +488,13 @@ def execute(scn, want_log=False):
                     lit = '{ ' + ' ; '.join(f'Elt {key_michelson(ktype, k)} {val_michelson(vtype, v)}' for k, v, _ in pairs) + ' }'
                     for k, v, ki in pairs:
                         sess['overlay'][ki] = v
+                if st.get('static'):
+                    sess['static'] = st['static']
+                    sess['code'] = []
+                    sess['storage_micheline'] = ({'int': str(sess['base_id'])} if sess['base_id'] is not None else
+                                                 [{'prim': 'Elt', 'args': [key_micheline(ktype, k), val_micheline(vtype, v)]} for k, v, _ in pairs])
+                    bump('static_run_code_transaction')
+                    continue
                 if src == 'param':
                     # the on-chain big_map is handed over by id in the *parameter* (registered as a copy under a temporary id):
                     # observations are within the statement; its `copy` diff is unfinished in pytezos and is not judged
@@ -498,6 +510,9 @@ def execute(scn, want_log=False):
                 continue
             if sess is None:
                 continue
+            if op == 'abandon' and sess.get('static'):
+                sess = None
+                continue
             if op == 'abandon':
                 bump('abandoned_session')
                 before = json.dumps(node.big_maps, sort_keys=True)
@@ -509,7 +524,23 @@ def execute(scn, want_log=False):
                 bump('parameter_big_map_session')
                 sess = None  # nothing durable is judged for a parameter big_map (see above)
                 continue
-            if op == 'commit':
+            if op == 'commit' and sess.get('static'):
+                from pytezos.michelson.parse import michelson_to_micheline
+
+                K_, V_ = KTYPE_M[sess['ktype']], VTYPE_M[vtype]
+                body = ' ; '.join(['CDR'] + sess['code'] + ['NIL operation', 'PAIR'])
+                script = michelson_to_micheline(f'parameter unit ; storage (big_map {K_} {V_}) ; code {{ {body} }}')
+                step_state['first'] = tr.attempts
+                uri_now = 'http://127.0.0.1:8732' if cur_net[0] == 'B' else URI
+                _ops, _storage, ld_raw, _stdout, err = Interpreter.run_code(
+                    parameter={'prim': 'Unit'}, storage=sess['storage_micheline'], script=script, output_mode=sess['static'],
+                    shell=ShellQuery(RpcNode(uri_now)))
+                if err is not None:
+                    violate('commit', 'static-run-raises', error=_stdout[-1:] if _stdout else repr(err), code=body[:400])
+                    sess = None
+                    continue
+                ld = rs.canon_lazy_diff(ld_raw)
+            elif op == 'commit':
                 res = run('NIL operation ; PAIR ; COMMIT')
                 rr = rs.render_result(res)
                 if res.error is not None:
@@ -518,6 +549,7 @@ def execute(scn, want_log=False):
                     continue
                 found = find_lazy_diff(rr['instr'])
                 ld = found[0] if found else None
+            if op == 'commit':
                 judged[0] += 1
                 if not ld or len(ld) != 1:
                     violate('commit', 'commit-diff-shape', lazy_diff=ld)
@@ -605,6 +637,18 @@ def execute(scn, want_log=False):
                     fault = {'ordinal': fail['ordinal'], 'when': fail['when']}
             ki = st['k']
             pre_state = kstate(ki)
+            if sess.get('static'):
+                if fail:
+                    continue  # a failing cell would have been rolled back: it is simply not part of the contract
+                sess['code'].extend(instrs + (['DROP'] if observe == 'top' else []))
+                states.add(f'{op}/{pre_state}/{sess["src"]}/static')
+                if op in ('upd_some', 'gau_some'):
+                    apply_update(ki, st['v'])
+                elif op in ('upd_none', 'gau_none'):
+                    apply_update(ki, None)
+                elif op in ('dup_keep', 'dup_both'):
+                    apply_update(ki, st['v'] if st['inner'] in ('upd_some', 'gau_some') else None)
+                continue
             res = run(' ; '.join(instrs), fault)
             if step_state['faults'] and any(k.startswith('fault:') for k in sim.stats):
                 if sim.stats.get('fault:transient', 0) + sim.stats.get('fault:preval', 0) + sim.stats.get('fault:latency', 0):
